@@ -16,7 +16,7 @@ ENTRY = {
          "n_quick": 600, "seeds_quick": 1, "n_thorough": 6000, "seeds_thorough": 2,
          "search_seeds": 1},
     ],
-    "level": "proof (partial: panic-freedom is explored, not proved)",
+    "level": "proof",
     "rule": "one evaluation = one op line executed on the real implementation (correspondence ops also on the Lean model and diffed; exploration ops `x …` run every operation of the receive / decide / store path under recover()); distinct non-trivial = distinct (kind, outcome) case keys of the driver",
     "level_text": "PROVED (kernel-checked, all inputs, abstract inner codec): charon's own SSZ wrappers of core/ssz.go — marshalSSZVersioned{Blinded,ValidatorIdx,}To / unmarshalSSZVersioned{Blinded,ValidatorIdx,} — round-trip, reject short input / unknown version / bad offset exactly as the code does, accept only what has a complete header and an inner object the inner decoder accepted on exactly buf[o1:], and marshal is injective given inner injectivity; the VersionedAttestation dispatch with its backwards-compatibility fallback on any failure (round trip with validator index; WITHOUT index for every slot, given that the inner decoder does not accept the inner object shifted by 8 bytes when inner bytes 4..8 read 20 — intrinsic to the wire format, whose two forms overlap: attestation_marshal_ambiguous; the pre-fix decoder unmarshalAttPrefix is kept with its negation witness prefix_attestation_roundtrip_noindex_fails, D-15 fixed by repo commit 2a43df9); AttestationData + attesterDutySSZ; core.marshal/unmarshal as decision logic (round trip for both encodings; JSON is attempted iff the type has no SSZ decoder or the SSZ decoder failed AND the first byte after leading Unicode white space is '{'); the four set encoders as loops over a Go map with the iteration order as oracle (decode∘encode = id on non-empty sets, result independent of the order); hashProto independent of the order given deterministic marshalling (assumed). Layouts are regenerated from the Go source by T-sszwrap (go/ast) and pinned by source_layout / source_text; bytes are tied by the correspondence stream `codec` (real wrappers with a scripted inner object, real types with real go-eth2-client inner objects, real core.unmarshal on probe values, real set encoders). EXPLORED (harness, not a theorem): generated values of every core data type × fork version (blinded/full, with/without validator index) through SSZ, JSON and protobuf (ssz switch on and off) with signing root and every encoded field unchanged, Clone equal and sharing no memory, equal bytes on re-encoding, consensus hash independent of map order; cross-type decoding under every duty type; EVERY JSON node × {null, wrong type, [], [null], removed}; SSZ truncations / splices / header-word and offset-word corruption; arbitrary payloads — each followed by the operations of the parsigex receive path (ParSignedDataSetFromProto, Eth2SignedData, Epoch, MessageRoot, Signature, real BLS VerifyEth2SignedData (sampled), parsigdb.StoreExternal with a sigagg-like threshold subscriber, Clone, SetSignature, re-encode) or of the consensus decide/store path (UnsignedDataSetFromProto, hashProto, attestationChecker field reads, dutydb.Store, Clone, re-encode, hash tree root), each under recover(); counts under coverage keys explored_*.",
     "level_note": "PARTIAL: a theorem cannot exhibit a Go panic. Panic-freedom of charon's accessors and of the go-eth2-client decoders on malformed input is decided only as far as the mutation enumeration reaches (coverage counts explored_values, explored_mutations:*, explored_decode_*, explored_rejected_at:*, explored_panic:*, explored_latent_panic:* = accessor panics on decodable values that the modelled path rejects earlier, counted, not violations). Trusted: Lean kernel; the Go harness and line driver; T-sszwrap (go/ast + closed set of statement shapes, fails closed).",
